@@ -4,7 +4,7 @@
     it is C04_history below, kept as a comment; the layer theorems are what it is built from, and the
     history level is tied to the implementation byte for byte and judged by the independent fsck. *)
 From Coq Require Import ZArith List Bool Sorted Lia.
-From PyFatV Require Import Base.Bytes Base.PyEnv Gen.Pure Model.Codec Model.Dir Model.FS Proofs.FatTable Proofs.FatCodec Proofs.Ownership.
+From PyFatV Require Import Base.Bytes Base.PyEnv Gen.Pure Model.Codec Model.Dir Model.FS Proofs.FatTable Proofs.FatCodec Proofs.Ownership Proofs.Device Proofs.DirCodec Proofs.DirState Proofs.Chains.
 Import ListNotations.
 Open Scope Z_scope.
 
@@ -91,3 +91,28 @@ Proof.
     destruct Hc as [->|[->|[->|[->|[->|[->| ->]]]]]]; cbn in *; try tauto; try congruence.
 Qed.
 (* C04_history (not proved): forall ops s0, fsck (image s0) = [] -> fsck (image (close (run ops s0))) = []. *)
+
+(** the executable chain follower against the link structure: it is sound (a chain reported complete is a path
+    through the FAT ending in an end-of-chain value), complete (every such path of at most [fuel] clusters is
+    returned) and duplicate-free; and after the allocator links freshly allocated clusters behind a chain, the
+    follower sees exactly the old chain followed by the new clusters — no cluster lost, none shared. *)
+Theorem C04_follower_sound : forall f t fat i l, chain_go f t fat i = (l, true) -> links t fat l /\ hd 0 l = i.
+Proof. exact chain_go_links. Qed.
+Print Assumptions C04_follower_sound.
+Theorem C04_follower_complete : forall t fat, vt t -> forall l f, links t fat l -> (length l <= f)%nat -> chain_go f t fat (hd 0 l) = (l, true).
+Proof. exact links_chain_go. Qed.
+Print Assumptions C04_follower_complete.
+Theorem C04_follower_nodup : forall f t fat i l, chain_go f t fat i = (l, true) -> NoDup l.
+Proof. exact chain_go_nodup. Qed.
+Print Assumptions C04_follower_nodup.
+Theorem C04_extend_seen : forall t fat i ch new, vt t ->
+  chain_go (length fat) t fat i = (ch, true) -> new <> [] -> StronglySorted Z.lt new ->
+  Forall (fun c => 2 <= c <= Gen.MAX_DATA_CLUSTER t /\ c < lenZ fat /\ nthZ fat c = 0) new ->
+  let fat' := updZ (link_chain fat new (Gen.END_OF_CLUSTER_MAX t)) (last ch 0) (hd 0 new) in
+  chain_go (length fat') t fat' i = (ch ++ new, true).
+Proof. exact extend_chain. Qed.
+Print Assumptions C04_extend_seen.
+Example C04_extend_example :
+  chain_go 9 12 [4088; 4095; 3; 4095; 0; 4095; 0; 0; 0] 2 = ([2; 3], true) /\
+  chain_go 9 12 (updZ (link_chain [4088; 4095; 3; 4095; 0; 4095; 0; 0; 0] [4; 6] 4095) 3 4) 2 = ([2; 3; 4; 6], true).
+Proof. vm_compute. split; reflexivity. Qed.
